@@ -22,7 +22,7 @@ ISOLATE = "chunk"   # result objects may keep process-global state (module-level
 #                     consecutive runs starts in a forked child of a pristine process; a violation that needs the earlier
 #                     runs of its chunk is replayed (and minimised) together with them
 
-PROPS = ("C05", "C06", "C08", "C11", "C12", "C20")
+PROPS = ("C05", "C06", "C08", "C11", "C12", "C13", "C20")
 DISTS = ("normal", "lognormal")
 
 _hv = None
@@ -91,6 +91,8 @@ def _kind_for(prop, rng):
         return "azimuthal"
     if prop == "C06":
         return "traditional" if rng.random() < 0.6 else "azimuthal"
+    if prop == "C13":
+        return "traditional" if rng.random() < 0.5 else "azimuthal"
     return rng.choice(["traditional", "traditional", "azimuthal", "azimuthal", "diffuse"])
 
 
@@ -102,7 +104,7 @@ def generate(seed, prop):
     n_az = 1
     if kind in ("azimuthal", "multi"):
         n_az = rng.choice([1, 2, 2, 3, 3, 4, 5])
-    equal = rng.random() < 0.75
+    equal = rng.random() < 0.75 or prop == "C13"     # (C13: one time window per curve on every azimuth)
     from ..core import deep
     nmax = (12 if prop != "C20" else 8) * (2 if deep() else 1)
     nmin = 1 if (kind == "azimuthal" and not equal and rng.random() < 0.5) else 2
@@ -147,6 +149,9 @@ def generate(seed, prop):
             a_ = rng.randrange(len(curves))
             zs.append([a_, rng.randrange(len(curves[a_])), rng.randrange(grid["n"])])
         world["zeros"] = zs
+    if prop == "C13":
+        from . import hvsrobj_td as TD
+        world["records"] = TD.draw_records_world(rng, len(curves[0]))
     counts = [len(c) for c in curves]
     same_counts = len(set(counts)) == 1
 
@@ -170,6 +175,8 @@ def generate(seed, prop):
     if prop == "C20":
         w["plot"] = 3.0
         w["manual"] = 0.0
+    if prop == "C13":
+        w.update({"sta_lta": 4.0, "max_value": 3.0, "update_peaks": 2.0, "fdwra": 1.5, "set_masks": 2.0, "query": 0.5})
     for k in list(w):                         # randomly mute / boost some ops
         u = rng.random()
         if u < 0.15 and k not in ("write_read", "plot"):
@@ -182,6 +189,8 @@ def generate(seed, prop):
         w["fdwra"] = 12.0                      # large sets: mostly the algorithm itself, from different entry states
     if not same_counts:
         w["sta_lta"] = w["max_value"] = 0.0
+    if prop == "C13" and w["sta_lta"] == 0 and w["max_value"] == 0:
+        w["sta_lta"] = 4.0
     if kind == "diffuse":
         for k in ("fdwra", "set_masks", "sta_lta", "max_value", "manual"):
             w[k] = 0.0
@@ -206,7 +215,10 @@ def generate(seed, prop):
             if n_plots >= 2:
                 name = "update_peaks"
             n_plots += 1
-        o = draw_op(rng, name, f, kind, curves, azimuths, fault_rate)
+        if prop == "C13" and name in ("sta_lta", "max_value"):
+            o = TD.draw_td_op(rng, name, world)
+        else:
+            o = draw_op(rng, name, f, kind, curves, azimuths, fault_rate)
         if "range" in o and name != "query":
             # biased schedule: repeat the range in use (with other kwargs / argument type) so that the
             # same-range short-circuit and 'only the kwargs changed' paths are exercised
@@ -236,6 +248,8 @@ def generate(seed, prop):
                                "rounds": rng.randint(1, 3)}
     if prop == "C12" and not any(o["op"] == "write_read" for o in ops):
         ops.append(draw_op(rng, "write_read", f, kind, curves, azimuths, fault_rate))
+    if prop == "C13" and not any(o["op"] in ("sta_lta", "max_value") for o in ops):
+        ops.append(TD.draw_td_op(rng, rng.choice(["sta_lta", "max_value"]), world))
     if prop == "C20" and not any(o["op"] == "plot" for o in ops):
         ops.append(draw_op(rng, "plot", f, kind, curves, azimuths, fault_rate))
     return {"machine": "hvsrobj", "property": prop, "run_seed": int(seed),
@@ -405,6 +419,10 @@ def get_records(st):
     if st.records is None:
         H = hv()
         r = st.world["records"]
+        if "envs" in r:                                  # C13 worlds: windows drawn by envelope recipe
+            from . import hvsrobj_td as TD
+            st.records = TD.build_records(H, r)
+            return st.records
         g = np_rng(r["k"])
         n = len(st.amps[0])
         recs = []
@@ -627,6 +645,12 @@ def apply_op(ctx, st, op, prop):
                         continue
                 h.valid_window_boolean_mask[j] = op["value"]
                 h.valid_peak_boolean_mask[j] = op["value"]
+        st.range_changed = False
+        ctx.state_changes += 1
+    elif name in ("sta_lta", "max_value") and prop == "C13":
+        from . import hvsrobj_td as TD
+        TD.op_time_domain(ctx, st, op, info, get_records,
+                          lambda s: [(k, s.objs[k]) for k in ("trad", "az") if k in s.objs])
         st.range_changed = False
         ctx.state_changes += 1
     elif name in ("sta_lta", "max_value"):
@@ -1435,7 +1459,26 @@ def shrinks(t, prop):
             c["ops"] = [o for o in c["ops"] if not (o["op"] == "set_masks" and o["az"] >= len(c["world"]["curves"]))]
             yield c
     # fewer windows
-    for a, cs in enumerate(w["curves"]):
+    if prop == "C13":
+        nwin = len(w["curves"][0])
+        if nwin > 2:
+            for j in range(nwin):
+                c = copy.deepcopy(t)
+                for cs in c["world"]["curves"]:
+                    del cs[j]
+                del c["world"]["records"]["envs"][j]
+                for o in c["ops"]:
+                    if o["op"] == "set_masks":
+                        o["idx"] = [i - (i > j) for i in o["idx"] if i != j]
+                yield c
+        for i, o in enumerate(t["ops"]):
+            if o["op"] in ("sta_lta", "max_value"):
+                for k, v in (("twins", []), ("dup", False), ("container", "list"), ("components", ["vt"])):
+                    if o.get(k) != v:
+                        c = copy.deepcopy(t)
+                        c["ops"][i][k] = v
+                        yield c
+    for a, cs in enumerate(w["curves"] if prop != "C13" else []):
         if len(cs) > 2:
             for j in range(len(cs)):
                 c = copy.deepcopy(t)
@@ -1524,6 +1567,14 @@ EVIDENCE = {
         "azimuth values are distinct and have a plain decimal representation (the file format keys curves by the printed azimuth)",
         "a torn file left by a failed or crashed write is probe-counted, not judged (the property speaks of completed writes)",
         "under an injected write/read fault the call must raise, leave the object unchanged, and one retry must succeed"]},
+    "C13": {"components": _COMPONENTS, "assumptions": [
+        "what the simulator owns here is the history of the attached result object (range updates, frequency-domain / manual "
+        "rejections, mask edits, earlier time-domain rejections) and the identity/order/container of the window list; the "
+        "per-window verdict is judged only where the property speaks ('clearly' inside/outside: farther than 1e-6 relative "
+        "from a limit under every reasonable conversion of seconds to samples), all else is counted as c13_verdict_not_clear",
+        "STA = mean |x| over consecutive blocks of sta_seconds, LTA = mean |x| over the first lta_seconds of the window, "
+        "as the function documents; STA/LTA lengths never exceed the window; one time window per curve on every azimuth",
+        "no storage, clock or scheduling fault applies to this property"]},
     "C20": {"components": _COMPONENTS, "assumptions": [
         "artists are judged, not pixels; Agg back end only",
         "plot_azimuthal_summary draws the mean-curve peak marker up to twice by design; every such marker must equal the object's",
@@ -1534,5 +1585,6 @@ REQUIRED_PROBES = {
     "C06": ["fdwra_refinement_judged", "fdwra_reached_max_iterations", "fdwra_twin_permute_windows"],
     "C11": ["c11_unequal_counts", "c11_single_azimuth", "c11_rebuilt"],
     "C12": ["roundtrip_judged_trad", "roundtrip_judged_az", "roundtrip_judged_diff", "shadow_compared"],
+    "C13": ["c13_attached_trad_history", "c13_attached_az_history", "c13_kept_some", "c13_twin_conj", "c13_twin_alone"],
     "C20": ["plot_judged_single_panel", "plot_judged_pre_post", "plot_judged_summary_table"],
 }
